@@ -19,9 +19,14 @@ factor (NOT) from factor, and a looser level is re-entered from factor only afte
 or a range that a comparison with a constant has bounded (a zone holding two time values centuries apart otherwise makes FLUSH - and every later FLUSH / QUERY of the shard - hang).
 (g) the nesting guard reads a command the way the grammar does: check_expr_nesting skips string literals, so it must end a literal exactly where the grammars' string_literal rule ends it - the
 guard treats a backslash as an escape if and only if the rule does (today neither does). A guard that skips `\"` while the grammar ends the literal there never counts the parentheses that follow.
+(h) keywords are whole words: in every peg grammar the generated __parse_ci (the case-insensitive keyword matcher) looks at the character after the run of letters and refuses a digit or '_'
+(otherwise `not_x` is the keyword NOT followed by `_x`, `by_region` is BY `_region`, `for_x` is FOR `_x`).
+(i) numbers are not narrowed silently: every narrowing or float-to-int `as` cast in the parser layer is dominated by a comparison of the same value with a bound of the target type
+(`TOP 4294967296` must be an error, not 0).
+(j) a string literal that is never closed is not a string: the tokenizer's parse_string_literal returns a StringLiteral only on a path that consumed the closing quote.
 """
-FLOOR = 7
-REQUIRED = ["C17.a1", "C17.a2", "C17.b", "C17.c", "C17.d", "C17.e", "C17.f", "C17.g"]
+FLOOR = 10
+REQUIRED = ["C17.a1", "C17.a2", "C17.b", "C17.c", "C17.d", "C17.e", "C17.f", "C17.g", "C17.h", "C17.i", "C17.j"]
 
 PANIC = re.compile(r"(option::Option::(unwrap|expect|unwrap_unchecked)|result::Result::(unwrap|expect|unwrap_err|expect_err|unwrap_unchecked)|"
                    r"panicking::(panic\w*|unreachable_display|assert_failed\w*|begin_panic\w*)|rt::(begin_panic|panic_fmt)\w*)$")
@@ -519,6 +524,11 @@ def run(ctx):
                 n += 1
                 la, lb = b._origin_locals(c_.args[2], depth=8), b._origin_locals(c_.args[3], depth=8)
                 same = bool(la & lb)
+                if not same:
+                    # the same expression written twice (`t.max(0) as u64, t.max(0) as u64`): both bounds are computed from exactly the same user variables
+                    na = {l for l in wide_all(b, c_.args[2], partial=False, depth=8) if b.local_name(l)}
+                    nb = {l for l in wide_all(b, c_.args[3], partial=False, depth=8) if b.local_name(l)}
+                    same = bool(na) and na == nb
 
                 def acc(op, A, B, truth):
                     # (max - min) <= CONST  (any orientation)
@@ -578,6 +588,137 @@ def run(ctx):
                 bad.append(("guard-reads-strings-differently:%s" % gname, "check_expr_nesting %s a backslash inside a string literal as an escape while the %s grammar's string_literal rule %s: the guard and the parser disagree on where a literal ends, and nesting after it is not counted" % ("treats" if guard_bs else "does not treat", gname, "does" if rule_bs else "does not"), None))
         return bad
     ctx.run("C17.g", "K11 SIB", "check_expr_nesting vs string_literal (query, PlotQL)", "the nesting guard and the grammar agree on where a string literal ends", g_)
+
+    def h_(inst):
+        bad, n = [], 0
+        for k in sorted(F.find(r"^command::parser::commands::\w+::\w+::__parse_ci$")):
+            b = F.fn_exact(k)
+            n += 1
+            consts = set()
+            for i in sorted(b.live_blocks()):
+                t = b.blocks[i]["t"]
+                if t["t"] == "switch":
+                    for v_, _tg in t["v"]:
+                        if str(v_).isdigit():
+                            consts.add(int(v_))
+                for st in b.blocks[i]["s"]:
+                    v = st.get("v")
+                    if v and v.get("r") == "bin":
+                        for o_ in (v["a"], v["b"]):
+                            m_ = re.match(r"^'(.)'$", o_.get("k") or "")
+                            if m_:
+                                consts.add(ord(m_.group(1)))
+            digit = 48 in consts and 57 in consts
+            under = 95 in consts
+            g = k.split("::")[-2]
+            inst.sites.append("%s::ci tests the next character against digits=%s, '_'=%s" % (g, digit, under))
+            if not (digit and under):
+                bad.append(("keyword-not-whole-word:%s" % g, "the ci rule of the %s grammar accepts a keyword that is followed by an identifier character: `not_x` parses as NOT `_x`, `for_x` as FOR `_x`" % g, None))
+        if n < 4:
+            raise AnchorMissing("generated __parse_ci functions (found %d, confirmed 4: query, plotql, replay, store)" % n)
+        return bad
+    ctx.run("C17.h", "K8 GUARD", "peg grammars: ci (keyword matcher)", "a keyword is recognised only as a whole word", h_)
+
+    RANK = {"u8": 8, "i8": 8, "u16": 16, "i16": 16, "u32": 32, "i32": 32, "u64": 64, "i64": 64, "usize": 64, "isize": 64, "u128": 128, "i128": 128, "f64": 1000, "f32": 999}
+
+    def i_(inst):
+        bad, n = [], 0
+        keys = [k for k in F.keys() if in_parser(norm_path(k)) and not k.startswith("bin:")]
+        for k in keys:
+            b = F.fn_exact(k)
+            for i in sorted(b.live_blocks()):
+                for st in b.blocks[i]["s"]:
+                    v = st.get("v")
+                    if not v or v.get("r") != "cast" or len(st.get("a", [])) != 1:
+                        continue
+                    pl = v["o"].get("m") or v["o"].get("c")
+                    if not pl or len(pl) != 1:
+                        continue
+                    src, dst = b.local_ty(pl[0]), b.local_ty(st["a"][0])
+                    if src not in RANK or dst not in RANK or dst.startswith("f"):
+                        continue
+                    narrowing = RANK[dst] < RANK[src] or (src[0] == "i" and dst[0] == "u") or (src[0] == "u" and dst[0] == "i" and RANK[dst] <= RANK[src])
+                    if not narrowing:
+                        continue
+                    n += 1
+                    srcs = wide_all(b, pl, partial=False, depth=6)
+                    lim = (1 << (RANK[dst] - (1 if dst[0] == "i" else 0))) - 1
+
+                    def acc(op, A, B, truth):
+                        # one side derives from the cast source, the other is a constant of the magnitude of the target's maximum
+                        def big(L):
+                            for l in L:
+                                if l[0] == "const":
+                                    m_ = re.match(r"^(-?\d+)", str(l[1]))
+                                    if m_ and abs(int(m_.group(1))) >= lim // 2:
+                                        return True
+                                if l[0] == "constitem" and re.search(r"MAX$", str(l[1])):
+                                    return True
+                            return False
+                        return big(A) or big(B)
+                    guarded = False
+                    for j in sorted(b.live_blocks()):
+                        if b.blocks[j]["t"]["t"] != "switch":
+                            continue
+                        si = b.switch_info(j)
+                        d = si.get("def") if si and si["kind"] == "bool" else None
+                        if not d or d.get("r") != "bin":
+                            continue
+                        if not ((wide_all(b, d["a"], partial=False, depth=6) | wide_all(b, d["b"], partial=False, depth=6)) & srcs):
+                            continue
+                        if acc(d["op"], b.origins(d["a"]), b.origins(d["b"]), True) and any(x is not None and b.dominates_edge((j, x), i) for x in (si["true"], si["false"])):
+                            guarded = True
+                    tf = [c_ for c_ in b.calls if not c_.cleanup and re.search(r"TryFrom.*::try_from$|::try_into$", c_.nname)]
+                    inst.sites.append("%s @ %s: %s as %s, range-tested=%s" % (base(k).split("::")[-1], sp(b, i), src, dst, guarded))
+                    if not guarded:
+                        bad.append(("unchecked-narrowing-cast:%s" % base(k), "%s narrows a parsed number with `as %s` (%s) without a test against the target's range: out-of-range input is altered silently instead of refused" % (base(k), dst, sp(b, i)), None))
+        inst.sites.append("narrowing casts in the parser layer: %d" % n)
+        return bad
+    ctx.run("C17.i", "K8 GUARD", "parser layer: narrowing `as` casts", "numbers beyond the target type are refused, not wrapped", i_)
+
+    def j_(inst):
+        b = F.fn("tokenizer::parse_string_literal")
+        rets = [(bb, v) for (bb, j, v, dst) in b.aggregates("Token", "StringLiteral") if dst[0] == 0]
+        if not rets:
+            raise AnchorMissing("Token::StringLiteral return in parse_string_literal")
+        # the closing quote: the arm of the char switch on '"' inside the scan loop
+        quote_edges = []
+        for i in sorted(b.live_blocks()):
+            t = b.blocks[i]["t"]
+            if t["t"] == "switch":
+                for v_, tg in t["v"]:
+                    if str(v_) == "34":
+                        quote_edges.append((i, tg))
+        if not quote_edges:
+            raise AnchorMissing("the match arm on '\"' in parse_string_literal")
+        bad = []
+        quote_edges = sorted(quote_edges)[:1]   # the scan loop's own match; a later `34` arm belongs to the escape handling
+        # flag-sensitive reachability: a `closed`-style flag tested before the return can only be true if its `= true` assignment was passed
+        cut = list(quote_edges)
+        for _round in range(6):
+            seen = b.reach(0, cut_edges=cut)
+            more = []
+            for j in sorted(seen):
+                if b.blocks[j]["t"]["t"] != "switch":
+                    continue
+                si = b.switch_info(j)
+                if not si or si["kind"] != "bool" or si["true"] is None:
+                    continue
+                for l_ in b._origin_locals(si["op"], depth=6):
+                    tdefs = [bb2 for (bb2, j2, dpl, rv) in b.defs().get(l_, []) if j2 != -1 and rv.get("r") == "use" and rv["o"].get("k") == "true"]
+                    fdefs = [bb2 for (bb2, j2, dpl, rv) in b.defs().get(l_, []) if j2 != -1 and rv.get("r") == "use" and rv["o"].get("k") == "false"]
+                    if tdefs and fdefs and not any(x in seen for x in tdefs) and (j, si["true"]) not in cut:
+                        more.append((j, si["true"]))
+            if not more:
+                break
+            cut += more
+        for (bb, v) in rets:
+            seen = b.reach(0, cut_edges=cut)
+            if bb in seen:
+                bad.append(("unterminated-string-accepted", "parse_string_literal returns a StringLiteral on a path that never saw the closing quote (input ended inside the literal)", witness_path(b, seen, bb)))
+        inst.sites = [sp(b, bb) for bb, v in rets]
+        return bad
+    ctx.run("C17.j", "K2 CUT", "tokenizer::parse_string_literal", "a string literal token exists only if the closing quote was read", j_)
 
 
 # cycles whose overflow was reproduced against the real code (DESIGN.md §4c); others are reported as notes until triaged
